@@ -25,6 +25,7 @@ package memory
 
 import (
 	"fmt"
+	"slices"
 
 	"github.com/paulsonkoly/calc/types/dbginfo"
 	"github.com/paulsonkoly/calc/types/value"
@@ -86,8 +87,12 @@ func (m *Type) Clone(reuse *Type) *Type {
 		newFP = make([]int, 0, newStackSize)
 	}
 
+	// the closure stack is copied: sharing its backing array would let a call in
+	// one context overwrite the closure frame of a call in the other
+	newClosure := slices.Clone(m.closure)
+
 	if len(m.fp) < 2 {
-		return &Type{sp: 0, fp: newFP, global: m.global, closure: m.closure, stack: newStack}
+		return &Type{sp: 0, fp: newFP, global: m.global, closure: newClosure, stack: newStack}
 	}
 
 	fp := m.fp[len(m.fp)+localFP]
@@ -100,12 +105,12 @@ func (m *Type) Clone(reuse *Type) *Type {
 		reuse.sp = m.sp - fp
 		reuse.fp = newFP
 		reuse.global = m.global
-		reuse.closure = m.closure
+		reuse.closure = newClosure
 		reuse.stack = newStack
 		return reuse
 	}
 
-	return &Type{sp: m.sp - fp, fp: newFP, global: m.global, closure: m.closure, stack: newStack}
+	return &Type{sp: m.sp - fp, fp: newFP, global: m.global, closure: newClosure, stack: newStack}
 }
 
 // CallDepth is the number of call frames.
